@@ -810,6 +810,12 @@ impl<E: FieldElement> OpFlags<E> {
         self.degree7_op_flags[get_op_index(Operation::SDepth.op_code())]
     }
 
+    /// Operation Flag of CLK operation.
+    #[inline(always)]
+    pub fn clk(&self) -> E {
+        self.degree7_op_flags[get_op_index(Operation::Clk.op_code())]
+    }
+
     // ------ Degree 6 u32 operations  ------------------------------------------------------------
 
     /// Operation Flag of U32ADD operation.
